@@ -83,6 +83,9 @@ def write_cfg(path, name, tier, mut=None, simulate=False):
     c = CONFIGS[name]
     consts = dict(BASE)
     consts.update(c[tier] or c["quick"])
+    if simulate:
+        # behaviours are replayed on the real library: identifiers as coded (states with aliasing are cut)
+        consts["IdFromCount"] = "TRUE"
     if mut:
         consts["Mut"] = mut
     ops = c.get("ops_quick", c["ops"]) if tier == "quick" else c["ops"]
@@ -194,6 +197,35 @@ def op_of(last, res=None, obs=None):
     return op
 
 
+def _pairs(x):
+    """(key, value) pairs of a TLA function printed as record, as explicit function or as empty tuple."""
+    if isinstance(x, dict):
+        if "$fn" in x:
+            return [(k, v) for k, v in x["$fn"]]
+        return list(x.items())
+    return []
+
+
+def model_shape(v, u):
+    """Chain lengths / head flags of the model's master key and of the user key the op touched,
+    in the canonical text form the harness logs for the real objects."""
+    if "msk" not in v:
+        return None
+    items = []
+    for _, chain in _pairs(v["msk"]):
+        if not chain:
+            items.append("0:0:0")
+            continue
+        items.append(f"{len(chain)}:{int(chain[0]['a'])}:{int(chain[0]['h'])}")
+    shape = {"msk": ",".join(sorted(items))}
+    if u:
+        for name, key in _pairs(v.get("usk", [])):
+            if name == u:
+                lens = sorted(len(c["c"]) for c in key["ch"])
+                shape["usk"] = ",".join(str(x) for x in lens)
+    return shape
+
+
 def states_to_ops(text):
     """Op list from a TLC state dump (simulation trace file or counterexample)."""
     import tlaval
@@ -206,6 +238,9 @@ def states_to_ops(text):
         v = tlaval.state_vars(body)
         op = op_of(v.get("last"), v.get("res"), v.get("obs"))
         if op:
+            shape = model_shape(v, op.get("u"))
+            if shape:
+                op["model_shape"] = shape
             ops.append(op)
     return ops
 
